@@ -324,5 +324,5 @@ TECHNIQUE = "identity-based pre-order reference traversal + metamorphic equality
 LEVEL_TEXT = ("For each generated tree the real walk()/accessors are compared by identity with an independent pre-order traversal and filters; the real == / != are "
               "evaluated in both directions against the tree itself, non-components, three kinds of copies, permuted rebuilds (subcomponent order, property "
               "insertion order, name case) and single-perturbation rebuilds; a perturbation counts only if the multiset-canonical R8 observation differs. "
-              "Sampled over trees, permutations and perturbations.")
+              "Sampled over trees, permutations and perturbations. Copies (deep copy, pickle) are also taken of the parsed tree, and two parses of one text must be equal.")
 LEVEL_NOTE = "trusts the G3 builder, R8 and Python's copy/pickle; parameter-only differences are not asserted"
